@@ -1,19 +1,20 @@
 #!/usr/bin/env bash
 # tools/mutreg.sh [ids...] : regression over the seeded changes: apply each seeded/<id>/patch.diff to a scratch
 # worktree of /repo, run the quick check of its property (or of the property named in OVERRIDE) against it with
-# VERIF_REPO, print "id check caught|MISSED n_violations". Worktrees are removed again.
+# VERIF_REPO, print "id check caught|MISSED n_violations". Worktrees and their .build/alt-* directory are removed
+# again (each instance only removes its own, so several shards may run side by side; not together with evalmut).
 cd "$(dirname "$0")/.."
 declare -A OVERRIDE=( [C03-3]=C09 [C09-4]=C20 [C09-2]=C09 )
-ids=${@:-$(ls seeded | sort)}
+ids=${@:-$(ls seeded | grep '^C' | sort)}
 for id in $ids; do
   prop=${OVERRIDE[$id]:-${id%-*}}
   wt=/tmp/mr-$id
   git -C /repo worktree add --detach $wt HEAD >/dev/null 2>&1 || { echo "$id worktree-failed"; continue; }
   if ! git -C $wt apply /verif/seeded/$id/patch.diff 2>/dev/null; then echo "$id $prop patch-does-not-apply"; git -C /repo worktree remove --force $wt; continue; fi
-  before=$(ls -d .build/alt-* 2>/dev/null | sort)
-  out=$(VERIF_EVIDENCE=/tmp/mr-$id.ev.json VERIF_REPO=$wt ./check $prop 2>&1)
+  alt=.build/alt-$(echo "$wt" | md5sum | cut -c1-8)
+  out=$(VERIF_REPO=$wt ./check $prop 2>&1)
   n=$(echo "$out" | grep -c '^VIOLATION')
   if [ $n -gt 0 ]; then echo "$id $prop caught $n $(echo "$out" | grep '  signature' | head -1 | cut -c1-110)"; else echo "$id $prop MISSED $(echo "$out" | grep -E 'HARNESS|BUILD' | head -1 | cut -c1-100)"; fi
-  git -C /repo worktree remove --force $wt; rm -f /tmp/mr-$id.ev.json
-  for d in $(ls -d .build/alt-* 2>/dev/null | sort); do echo "$before" | grep -qx "$d" || rm -rf "$d"; done
+  git -C /repo worktree remove --force $wt
+  rm -rf "$alt"
 done
